@@ -97,8 +97,9 @@ def build(rnd, loc, depth, files, counter, prefix):
             ref = 's/' + name
             child = resolve(prefix, ref) if prefix is not None else join_dir(loc, ref)  # against the prefix like against a file: a prefix without a trailing "/" names a sibling
         inc_line = f'include <{ref}>' if style in ('sys', 'sysabs') else f"include '{ref}'"
-        if depth == 0 and rnd.random() < 0.25:
-            # an include statement inside a function that is defined and called in this same file: it still runs in GLOBAL
+        if rnd.random() < (0.25 if depth == 0 else 0.3):
+            # an include statement inside a function that is defined and called in this same file (the root or an INCLUDED file: the
+            # path resolves against the file that contains the statement): it still runs in GLOBAL
             # scope (the included file logs the global cnt, not the parameter of the same name)
             lines.append(f"function ld{counter[0]}(cnt, g0):\n    {inc_line}\n    return cnt\nendfunction")
             lines.append(f"systemLog('ld ' + ld{counter[0]}(77, 'shadow'))")
@@ -201,7 +202,7 @@ def check_tree(root, main, files, acc, api, prefix, only_fault=None):
     nfetch = len(ref0['fetches'])
     plans = [({}, 'none')]
     for k in range(nfetch):
-        for kind in ('none', 'raise', 'broken'):
+        for kind in ('none', 'raise', 'broken') + (('raise-rt', 'raise-bare') if (k + nfetch) % 3 == 0 else ()):
             plans.append(({k: kind}, f'{kind}@{k}'))
     if only_fault is not None:
         plans = [p for p in plans if p[1] == only_fault] or plans[:1]
